@@ -115,6 +115,9 @@ def gen_db_case(rng, in_scope: bool = True) -> dict[str, Any]:
     int_mode = rng.pick(["float", "float", "float", "int", "mixed"])
     many = rng.chance(0.25)
     n_ops = rng.pick([1, 2, 3, 4, 6, 8, 10, 12, 16, 20, 25])
+    many_pts = rng.chance(0.12)  # more than 10 points: HDF5 lists "10" before "2"
+    if many_pts:
+        n_ops = rng.pick([24, 30, 36])
     names = list(NAME_POOL)
     pts: list[dict[str, Any]] = []
     seen = set()
@@ -123,9 +126,9 @@ def gen_db_case(rng, in_scope: bool = True) -> dict[str, Any]:
     ops: list[list[Any]] = []
     have_file = False
     for _ in range(n_ops):
-        if via != "direct" or rng.chance(0.62) or not pts:
+        if via != "direct" or rng.chance(0.8 if many_pts else 0.62) or not pts:
             # ---- store
-            if pts and rng.chance(0.55):
+            if pts and rng.chance(0.25 if many_pts else 0.55):
                 i = rng.randrange(len(pts))
             else:
                 span = 3
@@ -615,6 +618,8 @@ def check_db_cases(res: Result, cases: list[dict[str, Any]], in_scope: bool, twi
         res.count(f"db:via={case['via']}")
         res.count("db:node=" + ("root" if not case["node"] else "nested"))
         res.count(f"db:exports={min(n_exp, 6)}")
+        n_pts = len({(o[1]["int"], tuple(o[1]["xs"])) for o in ops if o[0] == "store"})
+        res.count("db:points>=11" if n_pts >= 11 else "db:points<11")
         if any(o[0] == "export" and o[1] == "w" for o in ops):
             res.count("db:has-fresh-export")
         if in_scope:
@@ -1183,10 +1188,11 @@ def shrink_pb(case, key):
 def gen_cache_case(rng) -> dict[str, Any]:
     nodes = rng.pick([["node"], ["a/b"], ["n1", "n2"], ["n1", "g/n2"]])
     ops = []
-    for _ in range(rng.pick([1, 2, 4, 6, 9, 12])):
+    big = rng.chance(0.35)  # more than 9 entries: HDF5 lists "10" before "2"
+    for _ in range(rng.pick([14, 18, 24, 30]) if big else rng.pick([1, 2, 4, 6, 9, 12])):
         ni = rng.randrange(len(nodes))
         r = rng.random()
-        x = rng.randint(0, 3)
+        x = rng.randint(0, 7 if big else 3)
         y = rng.randint(0, 1)
         if r < 0.5:
             ops.append(["out", ni, x, y, rng.randint(-8, 8)])
@@ -1275,7 +1281,9 @@ def check_cache_cases(res: Result, cases) -> None:
         res.evaluations += 1
         obs = cache_observe(case)
         res.count(f"cache:nodes={len(case['nodes'])}")
-        res.count(f"cache:ops={min(len(case['ops']), 12)}")
+        res.count(f"cache:ops={min(len(case['ops']) // 4 * 4, 28)}+")
+        n_ent = max(len({(o[1], o[2], o[3]) for o in case["ops"] if o[0] != "reopen" and o[1] == ni}) for ni in range(len(case["nodes"])))
+        res.count("cache:entries>=10" if n_ent >= 10 else "cache:entries<10")
         if len(case["ops"]) >= 4:
             res.nontrivial("cache:" + json.dumps(case, sort_keys=True))
         for key, msg in obs["bad"]:
